@@ -588,6 +588,17 @@ impl Stream for TypePositions
 	{
 		let mut out = CaseOut::default();
 		let (src, exp, what) = type_cells()[idx as usize].clone();
+		// the cell's own text (after the shared preamble), for signatures
+		let cell: String = src
+			.rsplit("\n\n")
+			.next()
+			.unwrap_or("")
+			.split_whitespace()
+			.collect::<Vec<_>>()
+			.join(" ")
+			.chars()
+			.take(48)
+			.collect();
 		out.key = idx;
 		out.nontrivial = true;
 		out.class(format!("position:{}", what));
@@ -605,7 +616,7 @@ impl Stream for TypePositions
 					if !o.ok
 					{
 						out.fail(
-							format!("documented type rejected in {} position {:?}", what, o.codes),
+							format!("documented type rejected in {} position {:?}: {}", what, o.codes, cell),
 							json!({"source": src, "codes": o.codes}),
 						);
 					}
@@ -614,12 +625,12 @@ impl Stream for TypePositions
 				{
 					if o.ok
 					{
-						out.fail(format!("invalid type accepted in {} position (expected E{})", what, code), json!({"source": src}));
+						out.fail(format!("invalid type accepted in {} position (expected E{}): {}", what, code, cell), json!({"source": src}));
 					}
 					else if !o.codes.contains(&code)
 					{
 						out.fail(
-							format!("invalid type in {} position rejected with {:?} instead of E{}", what, o.codes, code),
+							format!("invalid type in {} position rejected with {:?} instead of E{}: {}", what, o.codes, code, cell),
 							json!({"source": src, "codes": o.codes}),
 						);
 					}
